@@ -10,7 +10,8 @@ import numpy as np
 
 ID = "C15"
 RULE = ("rasterised jittered-hexagonal Voronoi tissues (4..60 cells, junction angles > 25 deg, ridges > 9 px, 35..90 px per "
-        "cell, thinned to minimal 8-connectivity) and the two shipped skeletons, each under the 8 symmetries of the square, "
+        "cell, thinned to minimal 8-connectivity), the same with a lumen (8..13 interior cells merged into one region of at least "
+        "7 mean cell areas: only the ordinary regions, consistency and the symmetries are judged there) and the shipped skeletons, each under the 8 symmetries of the square, "
         "padding and mirror_y; ne in 3..9. A raster on which the region oracle and the generating Voronoi diagram disagree is "
         "discarded as a generator failure (counted). distinct = (cells, image size, symmetry, mirror_y, ne, pad); "
         "non-trivial = at least one internal interface")
@@ -40,6 +41,7 @@ def cases(seed, tier):
     if not q:
         shipped += [f"examples/data/in_vivo/t_{i}.tif" for i in (0, 2, 3, 4)]
     out += [{"fam": "fixture", "file": f, "seed": [seed, 15, 10 ** 5 + j]} for j, f in enumerate(shipped)]
+    out += [{"fam": "lumen", "seed": [seed, 15, 2 * 10 ** 5 + i]} for i in range(3 if q else 40)]
     return out
 
 
@@ -156,10 +158,26 @@ def run_case(case):
     path = os.path.join(tmp, "t.tif")
     try:
         with env.Capture() as cap:
-            if case["fam"] == "gen":
-                img, info = raster.voronoi_image(rng, ncells=int(rng.integers(4, 61)))
+            if case["fam"] in ("gen", "lumen"):
+                nl = int(rng.integers(8, 14)) if case["fam"] == "lumen" else 0
+                img, info = raster.voronoi_image(rng, ncells=int(rng.integers(35, 61) if nl else rng.integers(4, 61)), lumen=nl)
                 lab0, n0, out0 = raster.regions(img)
-                if n0 - len(out0) != len(info["cells"]):
+                if nl:
+                    # the lumen is ONE enclosed region, at least 7 times the mean ordinary region and every ordinary region
+                    # below 3 times that mean: whether it counts as a cell is not judged (the parser drops regions above
+                    # 5 times the mean), every ordinary region is
+                    sizes = np.bincount(lab0.ravel(), minlength=n0 + 1)
+                    ll = {int(lab0[int(round(info["sites"][c_][1])), int(round(info["sites"][c_][0]))]) for c_ in info["lumen"]}
+                    ordinary = [l for l in range(1, n0 + 1) if l not in out0 and l not in ll]
+                    mean_ = np.mean([sizes[l] for l in ordinary]) if ordinary else 0
+                    if len(ll) != 1 or 0 in ll or not ordinary or sizes[list(ll)[0]] < 7 * mean_ or \
+                            max(sizes[l] for l in ordinary) > 3 * mean_ or n0 - len(out0) != len(info["cells"]) - nl + 1:
+                        return {"status": "inconclusive", "reason": "generator:lumen-not-decisive", "hist": {"generator-failure": 1}}
+                    info["cells"] = [c_ for c_ in info["cells"] if c_ not in info["lumen"]]
+                    lumen_site = info["sites"][info["lumen"][0]]
+                    info["sites"] = {c_: p_ for c_, p_ in info["sites"].items() if c_ not in info["lumen"]}
+                    hist["lumen-images"] = 1
+                elif n0 - len(out0) != len(info["cells"]):
                     return {"status": "inconclusive", "reason": "generator:regions-differ-from-diagram",
                             "hist": {"generator-failure": 1}}
                 site_label = {}
@@ -170,7 +188,8 @@ def run_case(case):
             else:
                 img = np.array(Image.open(os.path.join(FIX, case["file"])).convert("L"))
                 info = None
-            syms = SYMS if case["fam"] == "gen" else SYMS
+            syms = SYMS
+            lumen = case["fam"] == "lumen"
             base = None
             for si, sname in enumerate(syms):
                 a, f = apply_sym(img, sname)
@@ -194,11 +213,25 @@ def run_case(case):
                 # (1) one cell per enclosed region
                 mon.count("cells:compared")
                 labs = list(out["labels"].values())
-                if len(labs) != out["n_regions"] or None in labs or len(set(labs)) != len(labs):
+                if lumen:
+                    # ordinary regions only: exactly one cell each; a cell on the lumen is counted, not judged
+                    x, y = f(int(round(lumen_site[0])), int(round(lumen_site[1])))
+                    llab = int(out["lab"][y, x])
+                    kept = labs.count(llab)
+                    hist["lumen-kept-as-cell" if kept else "lumen-dropped"] = hist.get("lumen-kept-as-cell" if kept else "lumen-dropped", 0) + 1
+                    ordl = [l for l in labs if l != llab]
+                    if len(ordl) != out["n_regions"] - 1 or None in ordl or len(set(ordl)) != len(ordl) or kept > 1:
+                        mon.fail("cell-count", "exactly one cell per enclosed region", cells=len(ordl), regions=out["n_regions"] - 1,
+                                 sym=sname, mirror_y=mirror, ne=ne, unmatched=ordl.count(None), lumen=True)
+                        continue
+                    summary = (len(labs), len(out["border"]), len(out["pairs"]), out["n_junctions"])
+                elif len(labs) != out["n_regions"] or None in labs or len(set(labs)) != len(labs):
                     mon.fail("cell-count", "exactly one cell per enclosed region", cells=len(labs), regions=out["n_regions"],
                              sym=sname, mirror_y=mirror, ne=ne, unmatched=labs.count(None))
                     continue
-                if info is not None:
+                if lumen:
+                    pass
+                elif info is not None:
                     # identify regions with generating cells through the transformed site positions
                     lab = out["lab"]
                     s2l = {}
